@@ -184,6 +184,13 @@ def decorations(ser, n, nid, rng):
          ['mmaybe', ['m', P, 0, [[5, 2]]], 1, []], [[0, node], [1, node], [5, ['s', 2]]]),
         ('M-tagged-inner-capture', M.M(**{tname(1): M.MAND(**{tname(0): orig()})}),
          ['m', ['mand', [[0, P]]], 1, []], [[0, node], [1, node]]),
+        # an alternative that fails because the node has no such field (arbitrary-field MAST patterns) must leave no trace
+        ('MAND-over-MOR-missing-field', M.MAND(M.MOR(M.MAST(zz_no_such_field=M.M(**{tname(3): ...})), **{tname(1): orig()}), **{tname(0): ...}),
+         ['mand', [[None, ['mor', [[None, ['node', 999999, []]], [1, P]]]], [0, ['wild']]]], [[0, node], [1, node]]),
+        ('M-over-MOR-missing-field', M.M(M.MOR(M.Mexpr(zz_no_such_field=1), M.Mstmt(zz_no_such_field=1), **{tname(1): orig()}), **{tname(5): 4}),
+         ['m', ['mor', [[None, ['node', 999999, []]], [None, ['node', 999999, []]], [1, P]]], None, [[5, 4]]], [[1, node], [5, ['s', 4]]]),
+        ('MAND-MNOT-missing-field', M.MAND(M.MNOT(M.MAST(zz_no_such_field=1), **{tname(2): 6}), M.M(**{tname(0): orig()})),
+         ['mand', [[None, ['mnot', ['node', 999999, []], None, [[2, 6]]]], [None, ['m', P, 0, []]]]], [[0, node], [2, ['s', 6]]]),
         ('MAND-fail', M.MAND(orig(), other), ['mand', [[None, P], [None, ['type', ko]]]], None),
         ('MNOT-other', M.MNOT(**{tname(2): other, tname(3): 7}), ['mnot', ['type', ko], 2, [[3, 7]]], [[2, node], [3, ['s', 7]]]),
         ('MNOT-self', M.MNOT(orig()), ['mnot', P, None, []], None),
